@@ -1,5 +1,8 @@
 //! I->S recorder for C16: hostile input into the real stream and datagram
-//! servers (middleware stack Mandatory(Edns(Cookies(echo service)))).
+//! servers (middleware stack Mandatory(Edns(Cookies(echo service)))); the
+//! echo service assembles its answer by a builder route / recipe / layout
+//! that follows from the request id (Server.tla part 1c), requests carry
+//! COOKIE options of every kind (part 1b).
 //!
 //! Random / mutated request octets, random frame fragmentation, several
 //! connections interleaved, peers that vanish mid-frame.  One event per
@@ -23,7 +26,7 @@ use server::*;
 use verif_harness::common::*;
 
 /// One request body: valid, mutated, random, short, reply ...
-fn body(rng: &mut Rng) -> Vec<u8> {
+fn body(rng: &mut Rng, ip: std::net::IpAddr) -> Vec<u8> {
     let id = rng.next() as u16;
     let qlen = 5 + [0usize, 4, 12, 40, 250][rng.below(5) as usize];
     let edns = match rng.below(4) {
@@ -32,7 +35,42 @@ fn body(rng: &mut Rng) -> Vec<u8> {
         2 => Some(1232),
         _ => Some(rng.next() as u16),
     };
-    let mut b = mk_query(id, qlen, edns, false);
+    let mut b = if rng.chance(1, 4) {
+        // a COOKIE option of any kind: client cookie only, any length
+        // (RFC 7873 5.2.2 forbids most), a server cookie in the standard
+        // layout with a timestamp anywhere on the serial-number circle
+        // (around the clock, around the far side of it, anywhere) and a
+        // right or a wrong hash, a server cookie in some other layout
+        let d: u32 = match rng.below(6) {
+            0 => rng.below(7300) as u32,
+            1 => 0u32.wrapping_sub(rng.below(7300) as u32),
+            2 => (1u32 << 31).wrapping_add(rng.below(7300) as u32),
+            3 => (1u32 << 31).wrapping_sub(rng.below(7300) as u32),
+            _ => rng.next() as u32,
+        };
+        let ck = match rng.below(8) {
+            0 => json!({"form": "client"}),
+            1 => json!({"form": "len", "n": rng.below(48)}),
+            2 => json!({"form": "nonstd"}),
+            k => json!({"form": "std", "hash": if k % 2 == 0 { "ok" } else { "bad" },
+                        "d": [d >> 16, d & 0xffff]}),
+        };
+        let mut options = vec![];
+        if rng.chance(1, 4) {
+            options.push((12u16, vec![0u8; rng.below(20) as usize])); // padding first
+        }
+        options.push((10u16, cookie_data(&ck, ip, &SECRET).unwrap_or_default()));
+        mk_query_raw(&RawReq {
+            id,
+            qlen,
+            qd: if rng.chance(1, 5) { 0 } else { 1 },
+            opcode: 0,
+            qr: false,
+            opts: vec![(edns.unwrap_or(1232), 0, options)],
+        })
+    } else {
+        mk_query(id, qlen, edns, false)
+    };
     match rng.below(20) {
         0..=7 => {}
         8 | 9 => b[2] |= 0x80, // a reply
@@ -108,7 +146,7 @@ fn main() {
         let srv = Arc::new(StreamServer::with_config(
             listener.clone(),
             VecBufSource,
-            Arc::new(stack(ScriptSvc::<Vec<u8>>::echo())),
+            Arc::new(stack(ScriptSvc::<Vec<u8>>::echo_varied())),
             cfg,
         ));
         let srv_task = {
@@ -119,7 +157,7 @@ fn main() {
         let dsrv = Arc::new(DgramServer::new(
             sock.clone(),
             VecBufSource,
-            Arc::new(stack(ScriptSvc::<Vec<u8>>::echo())),
+            Arc::new(stack(ScriptSvc::<Vec<u8>>::echo_varied())),
         ));
         let dsrv_task = {
             let s = dsrv.clone();
@@ -139,7 +177,7 @@ fn main() {
                 // octets, or whole
                 let chunk = [1usize, 2, 3, 64, 0][rng.below(5) as usize];
                 let (io, h) = mock_io_chunked(None, chunk);
-                let addr = format!("192.0.2.1:{}", 1000 + next_c).parse().unwrap();
+                let addr: SocketAddr = format!("192.0.2.1:{}", 1000 + next_c).parse().unwrap();
                 if rng.chance(1, 5) {
                     // connection setup (handshake) fails: no connection
                     listener.connect_with(io, addr, false);
@@ -153,7 +191,7 @@ fn main() {
                 let mut stream = vec![];
                 let train = if rng.chance(1, 6) { 12 + rng.below(10) } else { 1 + rng.below(10) };
                 for _ in 0..train {
-                    let b = body(&mut rng);
+                    let b = body(&mut rng, addr.ip());
                     if rng.chance(1, 25) {
                         // a length prefix that promises more than will come
                         stream.extend_from_slice(&((b.len() + 200) as u16).to_be_bytes());
@@ -177,7 +215,7 @@ fn main() {
             }
             if pick <= 2 {
                 // a datagram
-                let mut b = body(&mut rng);
+                let mut b = body(&mut rng, from.ip());
                 if rng.chance(1, 12) {
                     let n = 900 + rng.below(300) as usize;
                     b = rng.bytes(n);
